@@ -6,8 +6,12 @@
    check_case evaluates the model Reach.find_all_fs / find_all_from with fuel_bound and compares.
    Second observation (second-wave hardening): what `cas.to_xmi()` did on a CAS built the same way — returned, or raised
    ValueError; compared with ReachList.to_xmi_lists (traversal + the list walks of the writer: a list of any kind written
-   inline whose tail chain is cyclic is refused, a forced duplicate id is refused, everything else is written). *)
-From Cassis Require Import Base Heap Schema Reach ReachList.
+   inline whose tail chain is cyclic is refused, a forced duplicate id is refused, everything else is written).
+   Third observation (fourth-wave hardening), on graphs whose types live in several packages: from the XMI document alone,
+   the packages of the feature-structure elements in the order in which they are first met (raw prefix = last component
+   of the package, namespace url) and the prefix the document uses for every namespace other than the writer's own two;
+   compared with ReachPrefix.assign_all (the table of prefixes with its search for a free prefix). *)
+From Cassis Require Import Base Heap Schema Reach ReachList ReachPrefix.
 Open Scope Z_scope.
 
 Record case := mkCase {
@@ -19,7 +23,9 @@ Record case := mkCase {
   k_found : list (xid * oid);           (* returned feature structures, in order *)
   k_ids : list (oid * option xid);      (* xmiID of every object after the call *)
   k_next : Z;                           (* next id of the generator after the call *)
-  k_xmi : option bool }.                (* to_xmi on a twin CAS: Some true returned, Some false raised ValueError, None not compared *)
+  k_xmi : option bool;                  (* to_xmi on a twin CAS: Some true returned, Some false raised ValueError, None not compared *)
+  k_ns : option (list (string * string) * list (string * string)) }.
+                                        (* packages (raw prefix, url) in the order first written; (prefix, url) used by the document *)
 
 Definition model (c : case) : res wstate :=
   match k_seeds c with
@@ -49,7 +55,18 @@ Definition check_traversal (c : case) : bool :=
   | Err e, Some e' => err_eqb e e'
   | _, _ => false
   end.
-Definition check_case (c : case) : bool := check_traversal c && xmi_agrees c.
+(* every namespace of the document carries the prefix the modelled table gives it (the search returned: not OutOfFuel) *)
+Definition ns_agrees (c : case) : bool :=
+  match k_ns c with
+  | None => true
+  | Some (seq, decl) =>
+    match assign_all ns_init seq with
+    | Ok st => forallb (fun pu => match alookup (snd pu) (ns_urls st) with Some p => String.eqb p (fst pu) | None => false end) decl
+    | _ => false
+    end
+  end.
+
+Definition check_case (c : case) : bool := check_traversal c && xmi_agrees c && ns_agrees c.
 
 (* premises of find_all_total: every scanned value is None or a live reference, seeds are live *)
 Definition premises (c : case) : bool :=
@@ -90,4 +107,34 @@ Definition schemaG : schema :=
   mkTi "uima.cas.TOP"%string ["uima.cas.TOP"%string] [];
   mkTi "uima.tcas.Annotation"%string ["uima.tcas.Annotation"%string; "uima.cas.AnnotationBase"%string; "uima.cas.TOP"%string] [mkFd "begin"%string "begin"%string "uima.cas.Integer"%string None false; mkFd "end"%string "end"%string "uima.cas.Integer"%string None false; mkFd "sofa"%string "sofa"%string "uima.cas.Sofa"%string None false]]
 (* END schemaG *)
+.
+
+(* The schema of P_TSPEC of harness/props/C15.py (fourth wave: one type <package>.N in each of ten packages whose last
+   components collide with each other, with numbered prefixes and with the prefixes the XMI writer reserves); same rule
+   as for schemaG: used only when identical to what scen.g_schema renders now. *)
+Definition schemaP : schema :=
+(* BEGIN schemaP *)
+[mkTi "p.type0.N"%string ["p.type0.N"%string; "uima.cas.TOP"%string] [mkFd "next"%string "next"%string "uima.cas.TOP"%string None false; mkFd "arr"%string "arr"%string "uima.cas.FSArray"%string None false; mkFd "lst"%string "lst"%string "uima.cas.FSList"%string None true];
+  mkTi "p.type1.N"%string ["p.type1.N"%string; "uima.cas.TOP"%string] [mkFd "next"%string "next"%string "uima.cas.TOP"%string None false; mkFd "arr"%string "arr"%string "uima.cas.FSArray"%string None false; mkFd "lst"%string "lst"%string "uima.cas.FSList"%string None true];
+  mkTi "p.v1.type.N"%string ["p.v1.type.N"%string; "uima.cas.TOP"%string] [mkFd "next"%string "next"%string "uima.cas.TOP"%string None false; mkFd "arr"%string "arr"%string "uima.cas.FSArray"%string None false; mkFd "lst"%string "lst"%string "uima.cas.FSList"%string None true];
+  mkTi "p.v2.type.N"%string ["p.v2.type.N"%string; "uima.cas.TOP"%string] [mkFd "next"%string "next"%string "uima.cas.TOP"%string None false; mkFd "arr"%string "arr"%string "uima.cas.FSArray"%string None false; mkFd "lst"%string "lst"%string "uima.cas.FSList"%string None true];
+  mkTi "p.v3.type.N"%string ["p.v3.type.N"%string; "uima.cas.TOP"%string] [mkFd "next"%string "next"%string "uima.cas.TOP"%string None false; mkFd "arr"%string "arr"%string "uima.cas.FSArray"%string None false; mkFd "lst"%string "lst"%string "uima.cas.FSList"%string None true];
+  mkTi "q.cas.N"%string ["q.cas.N"%string; "uima.cas.TOP"%string] [mkFd "next"%string "next"%string "uima.cas.TOP"%string None false; mkFd "arr"%string "arr"%string "uima.cas.FSArray"%string None false; mkFd "lst"%string "lst"%string "uima.cas.FSList"%string None true];
+  mkTi "q.cas0.N"%string ["q.cas0.N"%string; "uima.cas.TOP"%string] [mkFd "next"%string "next"%string "uima.cas.TOP"%string None false; mkFd "arr"%string "arr"%string "uima.cas.FSArray"%string None false; mkFd "lst"%string "lst"%string "uima.cas.FSList"%string None true];
+  mkTi "q.xmi.N"%string ["q.xmi.N"%string; "uima.cas.TOP"%string] [mkFd "next"%string "next"%string "uima.cas.TOP"%string None false; mkFd "arr"%string "arr"%string "uima.cas.FSArray"%string None false; mkFd "lst"%string "lst"%string "uima.cas.FSList"%string None true];
+  mkTi "q.xmi0.N"%string ["q.xmi0.N"%string; "uima.cas.TOP"%string] [mkFd "next"%string "next"%string "uima.cas.TOP"%string None false; mkFd "arr"%string "arr"%string "uima.cas.FSArray"%string None false; mkFd "lst"%string "lst"%string "uima.cas.FSList"%string None true];
+  mkTi "r.cas.N"%string ["r.cas.N"%string; "uima.cas.TOP"%string] [mkFd "next"%string "next"%string "uima.cas.TOP"%string None false; mkFd "arr"%string "arr"%string "uima.cas.FSArray"%string None false; mkFd "lst"%string "lst"%string "uima.cas.FSList"%string None true];
+  mkTi "uima.cas.AnnotationBase"%string ["uima.cas.AnnotationBase"%string; "uima.cas.TOP"%string] [mkFd "sofa"%string "sofa"%string "uima.cas.Sofa"%string None false];
+  mkTi "uima.cas.ArrayBase"%string ["uima.cas.ArrayBase"%string; "uima.cas.TOP"%string] [mkFd "elements"%string "elements"%string "uima.cas.TOP"%string None true];
+  mkTi "uima.cas.EmptyFSList"%string ["uima.cas.EmptyFSList"%string; "uima.cas.FSList"%string; "uima.cas.ListBase"%string; "uima.cas.TOP"%string] [];
+  mkTi "uima.cas.FSArray"%string ["uima.cas.FSArray"%string; "uima.cas.ArrayBase"%string; "uima.cas.TOP"%string] [mkFd "elements"%string "elements"%string "uima.cas.TOP"%string None true];
+  mkTi "uima.cas.FSList"%string ["uima.cas.FSList"%string; "uima.cas.ListBase"%string; "uima.cas.TOP"%string] [];
+  mkTi "uima.cas.Integer"%string ["uima.cas.Integer"%string; "uima.cas.TOP"%string] [];
+  mkTi "uima.cas.ListBase"%string ["uima.cas.ListBase"%string; "uima.cas.TOP"%string] [];
+  mkTi "uima.cas.NonEmptyFSList"%string ["uima.cas.NonEmptyFSList"%string; "uima.cas.FSList"%string; "uima.cas.ListBase"%string; "uima.cas.TOP"%string] [mkFd "head"%string "head"%string "uima.cas.TOP"%string None true; mkFd "tail"%string "tail"%string "uima.cas.FSList"%string None true];
+  mkTi "uima.cas.Sofa"%string ["uima.cas.Sofa"%string; "uima.cas.TOP"%string] [mkFd "sofaNum"%string "sofaNum"%string "uima.cas.Integer"%string None false; mkFd "sofaID"%string "sofaID"%string "uima.cas.String"%string None false; mkFd "mimeType"%string "mimeType"%string "uima.cas.String"%string None false; mkFd "sofaArray"%string "sofaArray"%string "uima.cas.TOP"%string None true; mkFd "sofaString"%string "sofaString"%string "uima.cas.String"%string None false; mkFd "sofaURI"%string "sofaURI"%string "uima.cas.String"%string None false];
+  mkTi "uima.cas.String"%string ["uima.cas.String"%string; "uima.cas.TOP"%string] [];
+  mkTi "uima.cas.TOP"%string ["uima.cas.TOP"%string] [];
+  mkTi "uima.tcas.Annotation"%string ["uima.tcas.Annotation"%string; "uima.cas.AnnotationBase"%string; "uima.cas.TOP"%string] [mkFd "begin"%string "begin"%string "uima.cas.Integer"%string None false; mkFd "end"%string "end"%string "uima.cas.Integer"%string None false; mkFd "sofa"%string "sofa"%string "uima.cas.Sofa"%string None false]]
+(* END schemaP *)
 .
